@@ -74,6 +74,21 @@ pub fn mutants(s: &Seed, level: Level) -> Vec<Mutant> {
             out.push(Mutant { what: "dup-inst-after-next".into(), bytes: model::words_to_bytes(&w) });
         }
     }
+    // a string that is not terminated inside its instruction: every word of the target that contains a zero byte is
+    // replaced by text, so that the next NUL lies in a LATER instruction
+    {
+        let mut w = s.words.clone();
+        let mut changed = false;
+        for j in 1..n {
+            if w[t + j].to_le_bytes().iter().any(|b| *b == 0) && w[t + j] != 0 && j + 1 == n {
+                w[t + j] = 0x4141_4141;
+                changed = true;
+            }
+        }
+        if changed {
+            out.push(Mutant { what: "unterminate".into(), bytes: model::words_to_bytes(&w) });
+        }
+    }
     if level == Level::Scale {
         for cut in [bytes.len() - 1, bytes.len() - 4, 4 * t + 2 * n, 4 * t + 4] {
             out.push(Mutant { what: format!("truncate@{}", cut), bytes: bytes[..cut.min(bytes.len())].to_vec() });
@@ -196,6 +211,9 @@ pub fn hostile_alphabet() -> Vec<u32> {
         !(o == op("Nop") && wc > 2) && !(o == op("TypeInt") && wc < 3)
     });
     alpha.extend([0u32, 1, 43, 52, 251, 64, 0x4141_4141, 0x0000_0041, 0xFFFF_FFFF, (0xFFFF << 16) | op("String"), op("Nop")]);
+    // a second module glued behind the first: the magic number and this universe's own version word at an
+    // instruction boundary
+    alpha.extend([0x0723_0203, 0x0001_0600]);
     alpha
 }
 
